@@ -49,25 +49,97 @@ def sanitize(name):
     return re.sub(r'[^A-Za-z0-9_.@#-]+', '_', name)[:150]
 
 
-def run_property(prop, tier='quick', seed=0):
-    t0 = time.time()
-    mod = importlib.import_module('contracts.' + prop)
+def _build_unit(args):
+    """worker: build the obligations of one unit and serialise them"""
+    prop, tier, unit = args
+    import importlib as _il
+    mod = _il.import_module('contracts.' + prop)
     fe = Frontend()
     cx = Ctx(prop)
     info = dict(functions=[], bounded=[], notes=[], lemmas=0)
-    error = None
+    t0 = time.time()
     try:
         if fe.errors:
             raise RuntimeError('cannot parse repo: {}'.format(fe.errors))
-        mod.build(cx, fe, tier, info)
+        if unit is None:
+            mod.build(cx, fe, tier, info)
+        else:
+            mod.build(cx, fe, tier, info, only=unit)
     except Exception:
-        error = traceback.format_exc()
+        return dict(unit=unit, error=traceback.format_exc())
+    obs = [(o.name, discharge.to_smt2(o, cx.axioms), _clean(o.meta))
+           for o in cx.obligations]
+    covs = [(c.name, discharge.to_smt2_cover(c, cx.axioms)) for c in cx.covers]
+    return dict(unit=unit, obligations=obs, covers=covs, info=info,
+                assumptions=list(cx.assumptions), build_s=time.time() - t0,
+                lib=sorted(npmodel.LIB_USED))
+
+
+def _clean(meta):
+    out = {}
+    for k, v in meta.items():
+        if isinstance(v, (str, int, float, bool, type(None))):
+            out[k] = v
+        elif isinstance(v, (list, tuple)):
+            out[k] = [str(x) for x in v]
+    return out
+
+
+class _Ob:
+    def __init__(self, name, smt, meta):
+        self.name = name
+        self.smt = smt
+        self.meta = meta
+
+
+def run_property(prop, tier='quick', seed=0):
+    t0 = time.time()
+    mod = importlib.import_module('contracts.' + prop)
+    units = getattr(mod, 'UNITS', None)
+    jobs = [(prop, tier, u) for u in (units or [None])]
+    import multiprocessing as mp
+    if len(jobs) > 1:
+        with mp.get_context('fork').Pool(min(16, len(jobs))) as pool:
+            built = pool.map(_build_unit, jobs, chunksize=1)
+    else:
+        built = [_build_unit(jobs[0])]
+    cx = Ctx(prop)
+    info = dict(functions=[], bounded=[], notes=[], lemmas=0, assumed=[],
+                assumptions=[], inlined=[], build_s={})
+    error = None
+    obs = []
+    cov_jobs = []
+    seen_names = {}
+    for b in built:
+        if b.get('error'):
+            error = b['error']
+            break
+        for (name, smt, meta) in b['obligations']:
+            k = seen_names.get(name, 0)
+            seen_names[name] = k + 1
+            if k:
+                name = '{}~{}'.format(name, k)
+            obs.append(_Ob(name, smt, meta))
+        cov_jobs.extend(b['covers'])
+        bi = b['info']
+        for f in bi.get('functions', []):
+            if not any(x['qualname'] == f['qualname']
+                       for x in info['functions']):
+                info['functions'].append(f)
+        for key in ('assumed', 'assumptions', 'inlined', 'notes',
+                    'trusted_extra'):
+            for x in bi.get(key, []):
+                if x not in info.setdefault(key, []):
+                    info[key].append(x)
+        for x in b['assumptions']:
+            cx.assume_tag(x)
+        info['build_s'][str(b['unit'])] = round(b['build_s'], 1)
+        npmodel.LIB_USED.update(b['lib'])
     if error is not None:
         print('CHECKER-ERROR property={}\n{}'.format(prop, error))
         write_evidence(prop, tier, seed, cx, [], [], info, time.time() - t0,
                        error=error)
         return 3
-    obs = cx.obligations
     floor = getattr(mod, 'OBLIGATION_FLOOR', 1)
     if len(obs) < floor:
         print('CHECKER-ERROR property={} only {} obligations generated '
@@ -79,7 +151,7 @@ def run_property(prop, tier='quick', seed=0):
     results = discharge.discharge_all(
         obs, cx.axioms, cross_check=(tier == 'thorough'),
         z3_timeout_ms=z3_to)
-    covers = discharge.check_covers(cx.covers, cx.axioms)
+    covers = discharge.check_covers_smt(cov_jobs)
     # a vacuous precondition is an error; a dead exit path is not, as long as
     # every function keeps at least one exit that is not refuted
     vac = [c for c in covers if c['result'] == 'unsat' and
